@@ -51,6 +51,7 @@
 #include "Anamorphosis/AnamHermite.hpp"
 #include "Anamorphosis/CalcAnamTransform.hpp"
 #include "Matrix/MatrixRectangular.hpp"
+#include "Matrix/MatrixSquareSymmetric.hpp"
 #include "geoslib_define.h"
 
 #ifndef GSTLEARN_VERIF
@@ -173,6 +174,10 @@ static std::string run(const Sx& c) {
         ret = xvalid(din, model.get(), neigh.get(), false, (int) P(9), (int) P(10), (int) P(11), VectorInt(), nc) == 0;
       } else if (sub == 3) {
         ret = test_neigh(din, dout, model.get(), neigh.get(), nc) == 0;
+      } else if (sub == 4) {
+        ret = kribayes(din, dout, model.get(), neigh.get(), VectorDouble(), MatrixSquareSymmetric(), P(1), P(2), nc) == 0;
+      } else if (sub == 5) {
+        ret = krigprof(din, dout, model.get(), neigh.get(), P(1), P(2), nc) == 0;
       }
     } else if (id == 1) {     // CalcMigrate: p = (dist_type fill inter ball loctype) ; names of the variables = aux (c[8])
       VectorString names; for (auto& s : c[8].l) names.push_back(s.str());
